@@ -14,6 +14,12 @@ step:
                                                                 -> "neighbourhood-holds-removed-line-after-<op>"
               and the distinct non-virtual lines in them are, as text, exactly the model's records that mention
               the segment (the dependants the next removal will cascade over)    -> "neighbourhood-differs-after-<op>"
+  * link paths  (GFA1) for every stored link: every element of link.paths is a line of this Gfa
+                                                                      -> "link-holds-removed-path-after-<op>"
+              and these paths are, as text, exactly the P records of the model with a step that runs over the link (in
+              either direction; an open overlap fits any link between the two segment ends) - the paths the removal of
+              the link will cascade over.  Links that share such a step with a parallel link are left out
+                                                                      -> "link-paths-differ-after-<op>"
 
 The generator (profile options copy / rm_copy of _hist.py) also repeats stored lines that carry no identifier
 (E/G/O/U '*', F, C without ID: two lines with exactly the same text are legal) and removes one of several lines
@@ -25,6 +31,24 @@ removed tag was.  The tag is removed with delete(tag) (75%) or with set(tag, Non
 (doc/tutorial/tags.rst).  A failure at the set that follows a removal by set(tag, None) has the signature prefix
 "after-setnone-".
 
+Two families of histories are made from a finished base history by inserting calls (harness/props/_hist_extra.py; the
+calls of the base history keep their order):
+  * "awaited" (AWAITED_P = 12% of the GFA2 histories): a stored segment, edge or gap is renamed onto an identifier that
+    no line defines and that only groups (O / U lines) list - the library holds a placeholder of unknown type for it;
+    where the base history offers no such identifier a group that lists one (N1) is added first - and, in 70%, the
+    renamed line is removed afterwards (rm / disconnect by the new identifier, rm by instance), at once or later.
+    Labels add:<O|U>:awaits, rename:awaited:<RT>, rm|disconnect|rmline:<RT>:awaited.  The library may refuse such a
+    rename (then it denotes no edit, and the history goes on; the removal that names the identifier ends it).  When it
+    takes it, the text the history denotes is plain - the identifier is rewritten wherever the line was mentioned, and
+    the items of that name in the groups are now mentions of the renamed line - so the oracle goes on comparing: the
+    sets / paths of a renamed segment include those groups, and the removal of the renamed line takes them along.
+  * "twoway" (TWOWAY_P = 12% of the GFA1 histories): two paths q1, q2 over one link a->b which arrive before the link,
+    one walking it forwards and one backwards (15%: both the same way); one leaves the overlaps open (*), the other
+    states an overlap that reads differently in the two directions (2M3M / 3M2M ...; M operations only); 75%: the open
+    one arrives first; 30%: a path has one more segment; then the L line arrives (spelled in either direction, 60% with
+    an ID), then (80%) the link is removed (rm / disconnect by ID, rm by instance).  The four calls follow each other
+    (60%) or are spread over the base history.  Labels add:P:twoway, add:L:twoway, rm|disconnect|rmline:L:twoway.
+
 Dependency table used by the model (doc/tutorial/references.rst + the property text):
   GFA1  removed segment -> its L (and the P over them), its C, the P through it;  removed link -> the P over it
   GFA2  removed segment -> its E, G, F and the O/U listing it;  removed E / O / U -> the O/U listing it
@@ -35,7 +59,8 @@ The oracle stops a history (silently) as soon as the model and the library disag
 the step's outcome as not pinned down by the documentation ("ambiguous").
 
 Signatures: text-differs-after-<op>, reparse-differs-after-<op>, neighbourhood-holds-removed-line-after-<op>,
-neighbourhood-differs-after-<op>, text-unwritable-after-<op>, foreign-exception
+neighbourhood-differs-after-<op>, link-holds-removed-path-after-<op>, link-paths-differ-after-<op>,
+text-unwritable-after-<op>, foreign-exception
 (op in {add-<RT>, rm, rmline-<RT>, disconnect, rename, settag, deltag}); after-setnone-text-differs-after-settag,
 after-setnone-text-unwritable-after-settag (the tag set had been removed by set(tag, None): the line keeps the datatype
 of the removed tag, so the new value is written under the old datatype or the line cannot be written).  On the pinned tree:
@@ -46,7 +71,8 @@ NOT CHECKED:
   * whether a given call should have raised (C08/C09); a failed call is only required to have left the text
     as it was for the history to go on.
   * histories after: renaming onto an identifier in use (incl. the documented U/U, O/O merge by rename) or
-    onto an identifier that is only mentioned (placeholder); removing a link under a path when a parallel
+    onto an identifier that is only mentioned (placeholder) - except a segment, edge or gap renamed onto an identifier
+    that only groups list (see "awaited" above; a gap only when all of them are sets); removing a link under a path when a parallel
     link could carry the same path step; a gap that is the only item of a set (the set would be left empty);
     groups that list themselves; a repeated link that carries tags or an ID; setting a tag that the line has
     to a value of another type (a tag that was removed first is checked, see above); deleting the ID tag of an L/C line; O groups listing a gap (the property speaks of sets only).
@@ -56,11 +82,12 @@ NOT CHECKED:
     this property).
   * the order of lines in str(g).
   * *which* collection of a segment a dependant is filed under (C11) and how often it occurs there; collections of
-    lines other than segments (C02 walks those).
+    lines other than segments and GFA1 links (C02 walks those).
 """
 import collections
 from harness import lib
 from harness.props import _hist as H
+from harness.props import _hist_extra as X
 
 ID = "C05"
 STATS = collections.Counter()   # why histories stop / how much is compared (diagnostics only)
@@ -69,7 +96,11 @@ RULE = ("exhaustive: every history of length <= 4 (quick) / <= 5 (thorough) over
         "in every collection, repeated lines without identifier (8% of additions once one exists) and removal of one of "
         "several equal lines by instance, nested and multi-line groups, rm by name and by instance, disconnect, rename, "
         "set/delete tag, remove a tag (delete(tag) 75% / set(tag, None) 25%) and set it again to a value of the other type "
-        "(2% of the mutation draws); 85% of histories end by defining everything still undefined. Non-trivial: at least one "
+        "(2% of the mutation draws); 85% of histories end by defining everything still undefined; inserted into 12% of the GFA2 "
+        "histories: rename of a segment / edge / gap onto an identifier that only groups list (not defined), 70% followed by "
+        "its removal; inserted into 12% of the GFA1 histories: two paths over one link in opposite directions, one with open "
+        "and one with a stated direction-dependent overlap (2M3M ...), arriving before the link, then the link, 80% followed "
+        "by its removal. Non-trivial: at least one "
         "rm/disconnect/rename in a history with at least two additions. Distinct by case hash.")
 
 PROF = H.profile(p_fail=0.04, gap_in_o=False, close=0.85, copy=0.08, rm_copy=0.5, retag_setnone=0.25,
@@ -89,8 +120,131 @@ def budget(tier):
     return 2000 if tier == "quick" else 80000
 
 
+# two families of histories that are made from a finished base history by inserting a few calls (see the module text)
+AWAITED_P = 0.12   # of the GFA2 histories: rename onto an identifier that only groups mention
+TWOWAY_P = 0.12    # of the GFA1 histories: two paths over one link, in opposite directions, before the link
+# overlaps that read differently in the two directions of a link (the complement reverses the operations), made of M
+# operations only (the grammar of the text model); the last two read the same both ways (control)
+TWOWAY_OVERLAPS = ["2M3M", "1M2M", "3M1M", "2M1M", "1M1M2M", "3M2M1M", "1M3M", "2M3M", "2M", "2M3M2M"]
+
+
+def inject_awaited_rename(rng, case):
+    """GFA2: a stored segment, edge or gap is renamed onto an identifier that no line defines and only groups (O / U
+    lines) list - where the base history has no such identifier, a group listing one ("N1") is added first - and
+    (70%) the renamed line is removed afterwards, at once or later in the history"""
+    states = X.replay_states(case)
+    n = len(case["hist"])
+    gap_in_o = PROF["gap_in_o"]
+
+    def options(m):
+        aw = X.awaited(m)
+        ids = m.ids()
+        both = {(a, x) for r in m.recs if r[0] in "OU" for a in H.mentions(r, m.v) for x in H.mentions(r, m.v)}
+        return [(a, m.recs[ids[a]][0], x) for a in sorted(ids) for x in sorted(aw)
+                if X.fits_awaited(m.recs[ids[a]][0], aw[x], gap_in_o) and (a, x) not in both]  # no item listed twice
+    ins = []
+    spots = [k for k in range(1, n + 1) if options(states[k])]
+    if spots:
+        k = rng.choice(spots)
+        a, rt, x = rng.choice(options(states[k]))
+    else:
+        spots = [k for k in range(1, n + 1) if any(states[k].recs[i][0] in "SE" for i in states[k].ids().values())]
+        if not spots:
+            return case
+        k = rng.choice(spots)
+        m = states[k]
+        ids = m.ids()
+        a = rng.choice([y for y in sorted(ids) if m.recs[ids[y]][0] in "SE"])
+        rt, x = m.recs[ids[a]][0], "N1"
+        mates = [y for y in sorted(ids) if y != a and m.recs[ids[y]][0] in "SE"]  # a second item for the group
+        items = ["N1"] + ([rng.choice(mates)] if mates and rng.chance(0.6) else [])
+        rng.shuffle(items)
+        if rng.chance(0.6):
+            text = "U\t%s\t%s" % (rng.choice(["u7", "u7", "*"]), " ".join(items))
+        else:
+            text = "O\t%s\t%s" % (rng.choice(["o7", "o7", "*"]), " ".join(y + rng.choice("+-") for y in items))
+        ins.append((k, ["add", text], "add:%s:awaits" % text[0]))
+    ins.append((k, ["rename", a, x], "rename:awaited:" + rt))
+    if rng.chance(0.7):
+        k2 = k if rng.chance(0.5) else rng.randint(k, n)
+        form = rng.choice(["rm", "rm", "rmline", "disconnect"])
+        if form == "rm":
+            ins.append((k2, ["rm", x], "rm:%s:awaited" % rt))
+        elif form == "disconnect":
+            ins.append((k2, ["disconnect", x], "disconnect:%s:awaited" % rt))
+        else:
+            # the line registered last under its record type (a renamed line is registered again)
+            ins.append((k2, ["rmline", rt, max(states[k2].count(rt) - 1, 0)], "rmline:%s:awaited" % rt))
+    return X.insert_steps(case, ins)
+
+
+def inject_two_way_paths(rng, case):
+    """GFA1: two paths q1, q2 walk one link a->b, one of them forwards and one backwards (15%: both the same way); one
+    leaves the overlaps open (*), the other one states the overlap, which reads differently in the two directions;
+    they arrive before the link (75%: the open one first), then the L line arrives (spelled in either direction,
+    60% with an ID), then (80%) the link is removed (rm / disconnect by ID, rm by instance).  60%: the four calls
+    follow each other, else they are spread over the base history (in this order)."""
+    states = X.replay_states(case)
+    n = len(case["hist"])
+    for _try in range(6):
+        a, b = rng.sample(H.SEGS, 2)
+        if rng.chance(0.6):
+            ks = [rng.randint(0, n)] * 4
+        else:
+            ks = sorted(rng.randint(0, n) for _ in range(4))
+        # no link between a and b in the base history while the paths wait for theirs
+        if any(r[0] == "L" and {r[1], r[3]} == {a, b} for k in range(ks[0], ks[2] + 1) for r in states[k].recs):
+            continue
+        if any(H.rec_id(r, "gfa1") in ("q1", "q2", "k1") for k in range(ks[0], n + 1) for r in states[k].recs):
+            continue
+        break
+    else:
+        return case
+    oa, ob = rng.choice("+-"), rng.choice("+-")
+    c = rng.choice(TWOWAY_OVERLAPS)
+    fwd = (["%s%s" % (a, oa), "%s%s" % (b, ob)], c)
+    rev = (["%s%s" % (b, H.inv(ob)), "%s%s" % (a, H.inv(oa))], H.cigar_compl(c))
+    d_open, d_spec = (fwd, rev) if rng.chance(0.5) else (rev, fwd)
+    if rng.chance(0.15):
+        d_spec = d_open
+
+    def path(name, d, stated):
+        segs, ovs = list(d[0]), [d[1]]
+        if rng.chance(0.3):
+            # one more segment before or after the step
+            e = "%s%s" % (rng.choice([x for x in H.SEGS if x not in (a, b)]), rng.choice("+-"))
+            if rng.chance(0.5):
+                segs.insert(0, e); ovs.insert(0, "2M")
+            else:
+                segs.append(e); ovs.append("2M")
+        return "P\t%s\t%s\t%s" % (name, ",".join(segs), ",".join(ovs) if stated else "*")
+    p_open, p_spec = path("q1", d_open, False), path("q2", d_spec, True)
+    first, second = (p_open, p_spec) if rng.chance(0.75) else (p_spec, p_open)
+    ins = [(ks[0], ["add", first], "add:P:twoway"), (ks[1], ["add", second], "add:P:twoway")]
+    spelled = fwd if rng.chance(0.5) else rev
+    x, y = spelled[0]
+    link = "L\t%s\t%s\t%s\t%s\t%s" % (x[:-1], x[-1], y[:-1], y[-1], spelled[1])
+    named = rng.chance(0.6)
+    if named:
+        link += "\tID:Z:k1"
+    ins.append((ks[2], ["add", link], "add:L:twoway"))
+    if rng.chance(0.8):
+        if named:
+            step = [rng.choice(["rm", "rm", "disconnect"]), "k1"]
+        else:
+            step = ["rmline", "L", states[ks[2]].count("L")]
+        ins.append((ks[3], step, "%s:L:twoway" % step[0]))
+    return X.insert_steps(case, ins)
+
+
 def gen_case(rng, tier, i):
-    return H.gen_case(rng, tier, PROF, p_unknown=0.0, vlevels=(1, 1, 1, 1, 2, 3, 0))
+    case = H.gen_case(rng, tier, PROF, p_unknown=0.0, vlevels=(1, 1, 1, 1, 2, 3, 0))
+    if case["flavour"] == "gfa2":
+        if rng.chance(AWAITED_P):
+            case = inject_awaited_rename(rng, case)
+    elif rng.chance(TWOWAY_P):
+        case = inject_two_way_paths(rng, case)
+    return case
 
 
 def nontrivial(case):
@@ -146,6 +300,46 @@ def neighbourhood(g, m, v):
     return None
 
 
+def link_paths(g, m, v):
+    """GFA1: the paths every stored link knows of (link.paths) against the P records of the text model that run over the
+    link (the dependants the removal of the link will cascade over) -> failure text or None.  Links that share a path
+    step with a parallel link (the step fits both) and links whose text occurs twice are left out."""
+    if v != "gfa1":
+        return None
+    gfapy = lib.import_gfapy()
+    over, shared = {}, set()
+    for p in m.recs:
+        if p[0] != "P":
+            continue
+        for st in m.path_steps(p):
+            ms = m.links_matching(*st)
+            if len(ms) > 1:
+                shared.update(ms)
+            for i in ms:
+                over.setdefault(i, set()).add(H.norm_rec(p, v))
+    index = {}
+    for i, r in enumerate(m.recs):
+        if r[0] == "L":
+            index.setdefault(H.norm_rec(r, v), []).append(i)
+    for l in g.lines:
+        if l.record_type != "L" or l.virtual:
+            continue
+        ix = index.get(H.norm_text(str(l), v), [])
+        if len(ix) != 1 or ix[0] in shared:
+            continue
+        got = set()
+        for x in l.paths:
+            x = x.line if isinstance(x, gfapy.OrientedLine) else x
+            if not isinstance(x, gfapy.Line) or x.gfa is not g:
+                return "link-holds-removed-path", "paths of link %s holds %r, which is not a line of the Gfa" % (
+                    str(l).replace("\t", " "), str(x))
+            got.add(H.norm_text(str(x), v))
+        exp = over.get(ix[0], set())
+        if got != exp:
+            return "link-paths-differ", "link %s: %s" % (str(l).replace("\t", " "), _diff(sorted(got), sorted(exp)))
+    return None
+
+
 def oracle(case):
     gfapy = lib.import_gfapy()
     v = case["flavour"]
@@ -185,6 +379,14 @@ def oracle(case):
             STATS["rejected:" + ("model-ok" if m.copy().apply(step, sel) in ("ok", "noop") else "model-illegal")] += 1
             continue
         st = m.apply(step, sel)
+        if st == "ambiguous:rename-onto-placeholder":
+            # the library took a rename onto an identifier that is mentioned and not defined.  When only groups mention
+            # it and the renamed line is a segment, an edge or a gap (of a set), the text this denotes is plain: the
+            # identifier is rewritten wherever it is mentioned, and the items of that name are now this line
+            i = m.find(tgt, sel)
+            if i is not None and X.rename_onto_awaited(m, i, step[2], PROF["gap_in_o"]) == "ok":
+                st = "ok"
+                STATS["rename-onto-awaited-accepted"] += 1
         if st not in ("ok", "noop"):
             STATS["stop:" + st] += 1
             return []
@@ -204,6 +406,8 @@ def oracle(case):
         if got != exp:
             return ["%stext-differs-after-%s: %s [step %d %r]" % (pre, kind, _diff(got, exp), k, step)]
         nb = neighbourhood(g, m, v)
+        if nb is None:
+            nb = link_paths(g, m, v)
         if nb is not None:
             return ["%s-after-%s: %s [step %d %r]" % (nb[0], H.step_kind(step), nb[1], k, step)]
         if not H.has_virtual(g) and (step[0] != "add" or k == len(hist) - 1 or m.all_defined()):
